@@ -29,7 +29,7 @@ OPERATOR_WORDS = ["(", ")", "!", ",", "-a", "-and", "-o", "-or"]
 FMT_FIELDS_OK = list("%abcfgGhHikmnpPsStuUy") + ["{fid}", "{projid}", "{mirror-count}", "{stripe-count}",
                                                   "{stripe-size}", "A@", "Ak", "CY", "T@", "TH", "{xattr:ab}"]
 FMT_FIELDS_UNSUP = list("dDFlMYZ")
-FMT_ESC = ["\\a", "\\b", "\\f", "\\n", "\\r", "\\t", "\\v", "\\0", "\\\\", "\\101", "\\042", "\\176", "\\134", "\\q", "\\"]
+FMT_ESC = ["\\a", "\\b", "\\f", "\\n", "\\r", "\\t", "\\v", "\\0", "\\\\", "\\101", "\\042", "\\176", "\\134", "\\q", "\\", "\\400", "\\501", "\\777", "\\377"]
 
 BOUNDARY_NUMS = [0, 1, 2, 7, 9, 10, 99, 255, 256, 2**16, 2**31 - 1, 2**31, 2**32 - 1, 2**32, 2**32 + 5,
                  2**63 - 1, 2**63, 2**64 - 1, 2**64, 2**64 + 1, 10**25]
@@ -299,3 +299,32 @@ def tree(rng, depth=4, api_only=True, **kw):
     if api_only:
         return "Prec " + tree(rng, depth - 1, api_only, **kw)
     return "Not " + tree(rng, depth - 1, api_only, **kw)
+
+
+# ---------------------------------------------------------------- dictionary harvested from the source
+
+_DICT = None
+
+
+def source_dictionary():
+    """string literals of the library's own sources that look like markers or identifiers
+    (grey-box dictionary: text the implementation might treat specially when it meets it in
+    user data)"""
+    global _DICT
+    if _DICT is not None:
+        return _DICT
+    import glob, re
+    words = set()
+    for f in glob.glob("/repo/src/**/*.rs", recursive=True):
+        try:
+            txt = open(f, encoding="utf-8", errors="replace").read()
+        except OSError:
+            continue
+        for m in re.finditer(r'"((?:[^"\\\n]|\\.){2,40})"', txt):
+            w = m.group(1)
+            if "\\" in w or "{" in w and "}" in w and ":" not in w:
+                continue
+            if re.search(r"[%:~#@$<>|]", w) and " " not in w and "'" not in w:
+                words.add(w)
+    _DICT = sorted(words)[:200]
+    return _DICT
